@@ -104,13 +104,17 @@ def fault_stop_signature(b, rng, variant):
     return bytes(bb)
 
 
-def fault_descriptor(b, pos, sequence):
-    """substitute descriptor number `pos` of section 3 by 0-63-255 / 3-63-255"""
+UNDEFINED_ELEMENTS = (b'\x3f\xff', b'\x00\x00', b'\x3c\xc8')     # 0-63-255, 0-00-000, 0-60-200: in no table, bundled or local
+UNDEFINED_SEQUENCES = (b'\xff\xff', b'\xc0\x00', b'\xfc\xc8')    # 3-63-255, 3-00-000, 3-60-200
+
+
+def fault_descriptor(b, pos, sequence, variant=0):
+    """substitute descriptor number `pos` of section 3 by an undefined element / sequence descriptor"""
     offs = dict((i, (st, ln)) for i, st, ln in section_offsets(b))
     st, ln = offs[3]
     bb = bytearray(b)
     o = st + 7 + 2 * pos
-    bb[o:o + 2] = b'\xff\xff' if sequence else b'\x3f\xff'
+    bb[o:o + 2] = (UNDEFINED_SEQUENCES if sequence else UNDEFINED_ELEMENTS)[variant % 3]
     return bytes(bb)
 
 
